@@ -1,5 +1,6 @@
 """C06 Reads and writes follow the attribute value semantics (permission structure + bounded copies)."""
 from .lib.match import *
+from .lib.linear import Lin, lin
 
 SELECT = (r'characteristic_value_access$|characteristic_value_read_access$|characteristic_value_write_access$|^bluetoe::details::attribute_value_read_access$|^bluetoe::details::attribute_value_read_only_access$'
           r'|^bluetoe::details::generate_attribute::(char_declaration_access|access)$|^bluetoe::service::\w*access$|^bluetoe::server::l2cap_output$')
@@ -178,6 +179,40 @@ def run(chk, facts, tier):
             inv = [r for r in fn.returns() if strip_casts(ret_value(r)).n == 'invalid_offset']
             ok = len(clamp) == 1 and len(inv) == 1 and 'buffer_offset' in clamp[0].text()
             chk.instance('bounded-read', fn, '%s: invalid_offset test + clamp' % short, ok, '' if ok else 'read is not clamped to the value size', key=short)
+            # the clamp comes before every write into the caller's buffer, and the amount written is the clamped size
+            clamp_st = [s for tgt, op, val, s in stores(fn.body) if 'buffer_size' in strip_casts(tgt).text() and val is not None and strip_casts(val).is_call('min')]
+            arg = fn.params[0]['n']
+            def is_arg_field(n, f):
+                n = strip_casts(n)
+                return n is not None and n.k == 'MemberExpr' and n.n == f and is_name(base_object(n), arg)
+            writes = []
+            okw, whyw = True, ''
+            for c in fn.body.calls('copy'):
+                if len(c.args()) == 3 and is_arg_field(c.args()[2], 'buffer'):
+                    writes.append(c)
+                    a0, a1 = lin(fn, c.args()[0]), lin(fn, c.args()[1])
+                    d = (a1 - a0) if a0 is not None and a1 is not None else None
+                    if d is None or d.c != 0 or set(d.t.items()) != {('buffer_size', 1)}:
+                        okw, whyw = False, 'copy into args.buffer of %s bytes instead of the clamped args.buffer_size' % (d,)
+            for loop in fn.body.find(lambda n: n.k == 'ForStmt'):
+                sts = [st for tgt, op, val, st in stores(loop) if op == '=' and strip_casts(tgt).k == 'UnaryOperator' and strip_casts(tgt).o == '*']
+                if not sts:
+                    continue
+                writes.append(loop)
+                cond = as_binop(loop.child('cond'))
+                iv = [d for d in loop.child('init').find(lambda n: n.k == 'VarDecl' and n.c)] if loop.child('init') is not None else []
+                start = lin(fn, iv[0].c[0]) if iv else None
+                end = lin(fn, cond[2]) if cond and cond[0] in ('!=', '<') else None
+                d = (end - start) if start is not None and end is not None else None
+                if d is None or d.c != 0 or set(d.t.items()) != {('buffer_size', 1)}:
+                    okw, whyw = False, 'the loop writes %s bytes into args.buffer instead of the clamped args.buffer_size' % (d,)
+            if clamp_st and writes:
+                for w in writes:
+                    if not precedes(fn, clamp_st[0], w if w.k != 'ForStmt' else (w.child('cond') or w)):
+                        okw, whyw = False, 'args.buffer is written before args.buffer_size was clamped to the rest of the value'
+            else:
+                okw, whyw = False, 'clamp or buffer write not found'
+            chk.instance('bounded-read', fn, '%s: writes min(buffer_size, size - offset) bytes, after the clamp' % short, okw, '' if okw else whyw + ': a value read into the tail of an almost full list response writes behind the output buffer', key=short + ' amount')
         if short == 'fixed_value':
             # byte i of the value is (Value >> 8 i) & 0xff, taken from the full width constant
             outs = [(val, st) for tgt, op, val, st in stores(fn.body) if op == '=' and strip_casts(tgt).k == 'UnaryOperator' and strip_casts(tgt).o == '*' and is_name(strip_casts(tgt).c[0], 'output')]
